@@ -69,6 +69,7 @@ def full(prefix, rel):
 
 
 def run(ctx, triples=None):
+    full_run = triples is None
     triples = triples if triples is not None else build_cases(ctx)
     triples = list(dict.fromkeys(triples))
     # --- 1. Rego pattern compiler vs model, Go/Rego relativisation vs model
@@ -173,6 +174,65 @@ def run(ctx, triples=None):
             continue
         if kept != want:
             ctx.fail("filterPaths result is not 'paths minus excluded, in order'", c, None, {"kept": kept, "want": want})
+    if full_run:
+        part_e2e(ctx)
+
+
+def part_e2e(ctx):
+    """end to end through the real Linter: config `ignore.files` x `--ignore-files` (the flag REPLACES the configured
+    list, on the Go side where files are collected and on the Rego side where rules are applied) x per-rule
+    `ignore.files`. Oracles: (a) whole-report prediction of the kernel model; (b) on the implementation alone: the number
+    of files scanned equals the number of files the REGO matcher does not exclude under the effective global patterns,
+    and no violation is located in a file the effective patterns exclude."""
+    from . import kernel
+    rng = ctx.rng("e2e")
+    cases = []
+    for k in range(40 if ctx.quick else 400):
+        c = kernel.gen_case(rng, 2, 6)
+        c.update({"collect": False, "export": False, "enabled": False})
+        user = c["user"] or {"rules": {}}
+        mode = k % 4
+        if mode in (0, 1, 2):
+            user["ignore"] = {"files": rng.sample(kernel.IGN_PATTERNS, rng.randint(1, 2))}
+        else:
+            user.pop("ignore", None)
+        c["user"] = user
+        c["params"]["ignoreFiles"] = rng.sample(kernel.IGN_PATTERNS, rng.randint(1, 2)) if mode in (1, 2, 3) else []
+        cases.append(c)
+    impl, model = kernel.run_both(ctx, cases)
+    ecases = []
+    for c in cases:
+        eff = c["params"]["ignoreFiles"] or ((c["user"] or {}).get("ignore") or {}).get("files") or []
+        c["_eff"] = eff
+        for f in c["files"]:
+            for pat in eff:
+                ecases.append({"id": len(ecases), "op": "c05.exclude", "pattern": pat, "file": f["name"], "prefix": c["prefix"],
+                               "_of": c["id"]})
+    eres = ctx.impl(ecases) if ecases else {}
+    excluded = {}
+    for e in ecases:
+        if (eres[e["id"]].get("out") or {}).get("rego") is True:
+            excluded.setdefault(e["_of"], set()).add(e["file"])
+    for c in cases:
+        i, m = impl[c["id"]], model[c["id"]]
+        kernel.compare(ctx, c, i, m)
+        io = i.get("out") or {}
+        if "error" in io or not io:
+            continue
+        names = {f["name"] for f in c["files"]}
+        ex = excluded.get(c["id"], set())
+        cfg_ign = ((c["user"] or {}).get("ignore") or {}).get("files") or []
+        ctx.seen(c, ("e2e", c["id"]) if ex else None)
+        ctx.count("e2e config-ignore=%s flag=%s" % (bool(cfg_ign), bool(c["params"]["ignoreFiles"])))
+        desc = {"files": sorted(names), "prefix": c["prefix"], "config_ignore": cfg_ign,
+                "flag_ignore_files": c["params"]["ignoreFiles"]}
+        if io["summary"]["filesScanned"] != len(names - ex):
+            ctx.fail("the number of files scanned differs from the files the effective ignore patterns leave (Go collects "
+                     "other files than Rego would lint)", desc, None,
+                     {"filesScanned": io["summary"]["filesScanned"], "excluded_by_rego_matcher": sorted(ex)})
+        bad = [v for v in io.get("violations") or [] if v[3] in ex]
+        if bad:
+            ctx.fail("a violation is reported in a file the effective ignore patterns exclude", desc, None, bad[:3])
 
 
 def search(ctx):
